@@ -3,7 +3,7 @@
 From Coq Require Import List ZArith NArith Bool Floats.SpecFloat.
 From AG Require Cli.
 From AG Require Import Str F64 Value Json Expr Ops Pipeline Filter Output Display Term Grammar.
-From AG Require Print.
+From AG Require Print PrintSyn.
 Import ListNotations.
 Open Scope string_scope.
 Open Scope list_scope.
@@ -450,6 +450,28 @@ Definition run_case (c : sexp) : sexp :=
             | None => sym "reject"
             end
         | _, _ => sym "bad-case"
+        end
+      else sym "bad-case"
+  | SList [h; w0; w1; SList [b1; b2; b3; b4]; SList [s1; s2; s3; s4; s5; s6; s7; s8; s9]; ww; SList stages] =>
+      if is_sym h "pps" then
+        (* as (pp ...) with the synonym / default choices of PrintSyn.sopts *)
+        match atom_str w0, atom_str w1, dec_filter ww, map_opt dec_stage stages,
+              atom_Z s1, atom_Z s2, atom_Z s3, atom_Z s4, atom_Z s6 with
+        | Some w0, Some w1, Some f, Some stages, Some n1, Some n2, Some n3, Some n4, Some n6 =>
+            let o := Print.mkPO w0 w1 (is_sym b1 "true") (is_sym b2 "true") (is_sym b3 "true") (is_sym b4 "true") in
+            let so := PrintSyn.mkSO (Z.to_N n1) (Z.to_N n2) (Z.to_N n3) (Z.to_N n4) (is_sym s5 "true") (Z.to_N n6)
+                                    (is_sym s7 "true") (is_sym s8 "true") (is_sym s9 "true") in
+            let fs := match f with FAnd l => l | _ => [f] end in
+            let stages := map (fun st => match st with
+                                         | SAgg fns keys => SAgg fns (map (fun ke => (Print.pp o 0 (snd ke), snd ke)) keys)
+                                         | _ => st end) stages in
+            let wf := Print.popts_ok o && forallb Print.wf_filter fs
+                      && forallb (PrintSyn.wf_stage_syn o so) stages && forallb stage_ok stages in
+            match PrintSyn.pp_query_syn o so fs stages with
+            | Some t => SList [sym "text"; sym (if wf then "wf" else "notwf"); sstr t]
+            | None => sym "unprintable"
+            end
+        | _, _, _, _, _, _, _, _, _ => sym "bad-case"
         end
       else sym "bad-case"
   | SList [h; w0; w1; SList [b1; b2; b3; b4]; ww; SList stages] =>
